@@ -712,6 +712,13 @@ func (g *gen) inplace(p *Type) {
 	}
 	p.Fields = append(p.Fields, f)
 	p.App.insertAfter(p, n)
+	if p.Nested() {
+		return // second level: no reference by path (it would need a three-part path)
+	}
+	if r.Chance(1, 3) {
+		// an in-place tuple inside the in-place tuple (App.Outer.inner.deep)
+		g.inplace(n)
+	}
 	if g.m.Haz["nested-path-ref"] {
 		// another tuple of the same application names the nested type by path
 		for _, t := range p.App.Types {
@@ -948,6 +955,9 @@ func (m *Model) Shapes() []string {
 		}
 		if t.Nested() {
 			set["nested-type"] = true
+			if t.Inplace && t.Parent != nil && t.Parent.Inplace {
+				set["inplace-two-levels"] = true
+			}
 			if t.Inplace {
 				for _, o := range t.App.Types {
 					if !o.Nested() && o.Name == t.Short() {
